@@ -275,16 +275,32 @@ def m3(ck: Check) -> None:
         probs.append("the key is not space_unique_key(query, self.network)")
     ck.ob("M3", fm, f.node, not probs, "; ".join(probs) if probs else "lookup key computed from the query against the diagram's network",
           key="find_node key")
-    for r in own_walk(f.node):
-        if not isinstance(r, ast.Return):
-            continue
-        rn = fm.cfgn(r)
-        pc = fm.pc(rn)
+    import types
+
+    def virtual_returns():
+        """a conditional expression in a return counts as two returns"""
+        for r0 in own_walk(f.node):
+            if not isinstance(r0, ast.Return):
+                continue
+            rn0 = fm.cfgn(r0)
+
+            def go(e, cond):
+                if isinstance(e, ast.IfExp):
+                    c_ = fm.translator(rn0).f(e.test)
+                    yield from go(e.body, logic.And(cond, c_))
+                    yield from go(e.orelse, logic.And(cond, logic.Not(c_)))
+                else:
+                    yield types.SimpleNamespace(value=e, node=r0, pc=cond, lineno=r0.lineno)
+            yield from go(r0.value, fm.pc(rn0))
+
+    for r in virtual_returns():
+        rn = fm.cfgn(r.node)
+        pc = r.pc
         in_atoms = [a for a in logic.atoms(pc) if a[0] == "b" and a[1].startswith("in:") and a[1].endswith("self.node_indices")]
-        in_handler = any(isinstance(a, ast.ExceptHandler) for a in f.ancestors(r))
+        in_handler = any(isinstance(a, ast.ExceptHandler) for a in f.ancestors(r.node))
         if is_none(r.value):
             ok = in_handler or (len(in_atoms) == 1 and logic.implies(pc, logic.Not(("atom", in_atoms[0]))))
-            ck.ob("M3", fm, r, ok, "None only when the key is absent (or the query names an unknown variable)" if ok else
+            ck.ob("M3", fm, r.node, ok, "None only when the key is absent (or the query names an unknown variable)" if ok else
                   f"None returned although the key may be present (path condition {logic.show(pc)})")
         else:
             v = text(r.value)
@@ -309,7 +325,7 @@ def m3(ck: Check) -> None:
                 ok = len(in_atoms) == 1 and logic.implies(pc, ("atom", in_atoms[0])) and isinstance(raw, ast.Subscript) \
                     and text(raw.value) == "self.node_indices" and is_key(raw.slice) \
                     and in_atoms[0][1] == f"in:{fm.key(raw.slice, rn)}|self.node_indices"
-            ck.ob("M3", fm, r, ok, "stored id returned on a hit" if ok else
+            ck.ob("M3", fm, r.node, ok, "stored id returned on a hit" if ok else
                   f"`{v}` returned; expected node_indices[key] under `key in node_indices` (or node_indices.get(key))")
     # key arithmetic
     kf = prog.fm("biobalm.space_utils", "space_unique_key")
@@ -559,7 +575,34 @@ def m5(ck: Check) -> None:
             elif "motif avoid" in s:
                 lab["maa"] = n
     if set(lab) != {"min", "maa"}:
-        raise AnalysisError("anchor vanished: summary() labels")
+        # the labels may sit in a lookup table {True: "minimal trap space ", False: "motif avoidance in "}[node_is_minimal(node)]
+        tables = {}
+        for n in own_walk(fm.f.node):
+            if isinstance(n, ast.Assign) and isinstance(n.targets[0], ast.Name) and isinstance(n.value, ast.Dict) \
+                    and all(isinstance(k, ast.Constant) and isinstance(k.value, bool) for k in n.value.keys) and len(n.value.keys) == 2 \
+                    and all(isinstance(v, ast.Constant) and isinstance(v.value, str) for v in n.value.values):
+                tables[n.targets[0].id] = {k.value: v.value.lower() for k, v in zip(n.value.keys, n.value.values)}
+        probs = []
+        uses = [n for n in own_walk(fm.f.node) if isinstance(n, ast.Subscript) and isinstance(n.value, ast.Name) and n.value.id in tables
+                and isinstance(n.ctx, ast.Load)]
+        if not tables or not uses:
+            raise AnalysisError("anchor vanished: summary() labels")
+        for u in uses:
+            tb = tables[u.value.id]
+            if not ("minimal trap" in tb[True] and "motif avoid" in tb[False]):
+                probs.append("labels are attached to the wrong value of node_is_minimal")
+            un = fm.cfgn(u)
+            lps = [l for l in fm.cfg.enclosing_loops(un) if isinstance(l, ast.For)]
+            var = text(lps[0].target) if lps else "?"
+            k = fm.deref(u.slice, un)
+            while isinstance(k, ast.Call) and callee_name(k) == "bool" and len(k.args) == 1:
+                k = fm.deref(k.args[0], un)
+            if not (isinstance(k, ast.Call) and callee_name(k) == "node_is_minimal" and text(k.func.value) == "self" and k.args
+                    and text(k.args[0]) == var):
+                probs.append("the label is not chosen by node_is_minimal of the listed node")
+        ck.ob("M5", fm, uses[0], not probs, "; ".join(sorted(set(probs))) if probs else "labels follow node_is_minimal of the listed node",
+              key="summary labels")
+        return
     loop = [l for l in fm.cfg.enclosing_loops(fm.cfgn(lab["min"])) if isinstance(l, ast.For)][0]
     var = text(loop.target)
 
